@@ -284,6 +284,25 @@ func namesTables(c *Ctx, required []string, exact bool, withDefaults bool) {
 			return &interp.Opaque{Kind: "types.Type", ID: "map2p", GoType: "*go/types.Map", Methods: mmap{"Key": tmeth(kLeaf("ka")), "Elem": tmeth(kLeaf("kb"))}}
 		}, ""}}, []int{1}},
 	}
+	if c.Tier == "thorough" {
+		// longer runs of one type, two numbered qualifiers at once, results and parameters mixed
+		more := func(key string, steps ...addStep) {
+			scenarios = append(scenarios, struct {
+				key   string
+				steps []addStep
+				keep  []int
+			}{key, steps, nil})
+		}
+		more("five unnamed parameters of one type", addStep{"", strT, ""}, addStep{"", strT, ""}, addStep{"", strT, ""}, addStep{"", strT, ""}, addStep{"", strT, ""})
+		more("packages qualified s1 and s3 and four unnamed strings", addStep{"x", leaf("s1"), ""}, addStep{"y", leaf("s3"), ""}, addStep{"", strT, ""}, addStep{"", strT, ""}, addStep{"", strT, ""}, addStep{"", strT, ""})
+		more("three unnamed parameters and three unnamed results of one type", addStep{"", strT, ""}, addStep{"", strT, ""}, addStep{"", strT, ""}, addStep{"", strT, "Out"}, addStep{"", strT, "Out"}, addStep{"", strT, "Out"})
+		more("written s, s1, s2 and three unnamed strings", addStep{"s", intF, ""}, addStep{"s1", intF, ""}, addStep{"s2", intF, ""}, addStep{"", strT, ""}, addStep{"", strT, ""}, addStep{"", strT, ""})
+		more("two unnamed values of a type whose package is named like their default name", addStep{"", leaf("t"), ""}, addStep{"", leaf("t"), ""})
+		more("a parameter named like the numbered name a later conflict produces", addStep{"", strT, ""}, addStep{"s2", intF, ""}, addStep{"", strT, ""}, addStep{"", strT, ""})
+		more("parameters named like two packages a later result imports", addStep{"ka", intF, ""}, addStep{"kb", intF, ""}, addStep{"", func() ktype {
+			return &interp.Opaque{Kind: "types.Type", ID: "mapab", GoType: "*go/types.Map", Methods: mmap{"Key": tmeth(kLeaf("ka")), "Elem": tmeth(kLeaf("kb"))}}
+		}, "Out"})
+	}
 	for _, sc := range scenarios {
 		w, err := newNameWorld(prog)
 		if err != nil {
@@ -350,6 +369,39 @@ func namesTables(c *Ctx, required []string, exact bool, withDefaults bool) {
 		}
 		sort.Strings(ql)
 		run.Check("G-ADDVAR/table", sc.key, pos, distinct && clash == "" && kept, fmt.Sprintf("%s: the variables are named %v, the imports qualified %v — want pairwise distinct, non-blank names, none equal to an import qualifier of the file, and written names kept where nothing collides with them", sc.key, all, ql))
+	}
+	// ---------------- every call of MethodScope hands out a fresh, empty scope
+	{
+		w, err := newNameWorld(prog)
+		if err != nil {
+			und("G-SCOPE/fresh-scope", "registry", err)
+		} else {
+			v1, e1 := w.add(interp.Lit(""), strT(), "")
+			v2, e2 := w.add(interp.Lit(""), strT(), "")
+			ms := prog.LookupFunc(load.PkgRegistry, "Registry.MethodScope")
+			var e3, e4 error
+			var v3 *interp.Struct
+			if ms != nil {
+				var sc2 interp.Value
+				sc2, e3 = w.m.CallFunc(token.NoPos, ms, w.reg, nil)
+				if e3 == nil {
+					w.scope = sc2
+					v3, e4 = w.add(interp.Lit(""), strT(), "")
+				}
+			}
+			switch {
+			case e1 != nil || e2 != nil || e3 != nil || e4 != nil || v3 == nil:
+				for _, e := range []error{e1, e2, e3, e4} {
+					if e != nil {
+						und("G-SCOPE/fresh-scope", "registry", e)
+						break
+					}
+				}
+			default:
+				n1, n2, n3 := varNameOf(v1), varNameOf(v2), varNameOf(v3)
+				run.Check("G-SCOPE/fresh-scope", "registry", pos, n3 == "s" && n1 != n2 && n1 != "" && n2 != "", fmt.Sprintf("two unnamed strings in one method scope are named %q and %q; after that, the first unnamed string of a scope obtained anew from the registry is named %q, want \"s\": every method starts from an empty scope, names and conflict marks of one method must not leak into the next", n1, n2, n3))
+			}
+		}
 	}
 	run.Floor("G-ADDVAR/table", 10)
 	// ---------------- type-derived default names
